@@ -548,7 +548,46 @@ impl<'a> Exerciser<'a> {
         if let Some(mut rd) = self.open(opener) {
             for_type!(t, S => self.iterate::<S>(&mut rd, "iter_shapes_as"));
         }
+        // the complete Reader: the hostile .shp/.shx next to a small valid .dbf
+        if self.which_typed % 4 == 0 {
+            if let Some(rd) = self.open(opener) {
+                let bound = self.bound_items;
+                let dbf = valid_dbf();
+                self.call("Reader::new+read", move || {
+                    let db = shapefile::dbase::Reader::new(Cursor::new(dbf)).ok()?;
+                    let mut full = Reader::new(rd, db);
+                    let _ = full.shape_count();
+                    let _ = full.seek(1);
+                    let mut k = 0usize;
+                    for item in full.iter_shapes_and_records() {
+                        let _ = item;
+                        k += 1;
+                        if k > bound {
+                            panic!("harness-observed: complete Reader iteration exceeds the item bound");
+                        }
+                    }
+                    full.read().ok().map(|v| v.len())
+                });
+            }
+        }
     }
+}
+
+/// A small valid .dbf with three rows (written once with the dbase crate).
+fn valid_dbf() -> Vec<u8> {
+    use std::sync::OnceLock;
+    static DBF: OnceLock<Vec<u8>> = OnceLock::new();
+    DBF.get_or_init(|| {
+        let mut c = Cursor::new(Vec::new());
+        {
+            let mut w = crate::e_c10::table_builder().build_with_dest(&mut c);
+            for i in 0..3 {
+                w.write_record(&crate::e_c10::row(i)).expect("harness: dbf row");
+            }
+        }
+        c.into_inner()
+    })
+    .clone()
 }
 
 pub fn exercise(inp: &Input, which_typed: usize) -> (Vec<Finding>, u64, u64) {
